@@ -56,9 +56,7 @@ CONSTANTS
   MayCancel = TRUE
   MayFailRename = TRUE
   ShutdownCancel = %(sdc)s
-''' + INVS + '''INVARIANT R_NoTempWhenComplete
-INVARIANT R_DestNeverPartial
-CONSTRAINT Progress
+%(invs)sCONSTRAINT Progress
 POSTCONDITION Final
 CHECK_DEADLOCK FALSE
 '''
@@ -111,14 +109,21 @@ def scenarios(rng, cap, kinds, sdc, n, thorough):
     return out
 
 
-def validate(traces, cap, kinds, sdc):
+TRACE_INVS = INVS + '''INVARIANT R_NoTempWhenComplete
+INVARIANT R_DestNeverPartial
+'''
+
+
+def validate(traces, cap, kinds, sdc, invs=None):
+    inv_lines = TRACE_INVS if invs is None else ''.join(
+        f'INVARIANT {i}\n' for i in invs)
     d = tempfile.mkdtemp(prefix='verif-c20-')
     try:
         path = os.path.join(d, 'traces.ndjson')
         with open(path, 'w') as f:
             for t in traces:
                 f.write(json.dumps(t) + '\n')
-        cfg = TRACE_CFG % dict(cap=cap, n=len(kinds), sdc='TRUE' if sdc else 'FALSE')
+        cfg = TRACE_CFG % dict(cap=cap, n=len(kinds), sdc='TRUE' if sdc else 'FALSE', invs=inv_lines)
         r = tlc.run_tlc('MC_CrtGlue_Trace', cfg, workers=1,
                         env={'TRACE_FILE': path}, timeout=3000,
                         files={'MC_CrtGlue_Trace.tla': MODULE % (
@@ -160,6 +165,39 @@ def run(tier, seed):
     if thorough:
         geos += [(3, tuple(['download_path', 'upload', 'delete'] * 3), False),
                  (128, tuple(['delete'] * 131), False)]
+    total = traces_part(ck, rng, geos, thorough)
+    pipeline.close_pool()
+    ck.require_nonvacuous('crt traces', total, 100)
+    ck.assumptions += ASSUMPTIONS
+    return ck.finish()
+
+
+ASSUMPTIONS = [
+    'the real awscrt is not installed: s3transfer.crt runs against a stub '
+    'awscrt that provides only the imported names; the stub client '
+    'completes finished_future before calling on_done (as awscrt does) '
+    'and, in 30% of the runs, in the opposite order',
+    'the CRT permit capacity is 128 in the code; runs use it unchanged or a '
+    'smaller one substituted through the threading shim',
+]
+
+
+def facet(ck, tier, seed, invs, prefix):
+    """The CRT manager's part of another property (same executions, same
+    trace specification, ``invs`` as the invariants)."""
+    thorough = tier == 'thorough'
+    rng = random.Random(seed * 211 + 20 + int(ck.pid[1:]))
+    geos = [(1, ('download_path', 'upload', 'download_path'), False),
+            (2, ('download_path', 'download_path', 'upload', 'download_path'), True)]
+    n = traces_part(ck, rng, geos, thorough, invs=invs, prefix=prefix)
+    ck.coverage.setdefault('families', {})['crt-manager'] = n
+    for a in ASSUMPTIONS:
+        if a not in ck.assumptions:
+            ck.assumptions.append(a)
+    return n
+
+
+def traces_part(ck, rng, geos, thorough, invs=None, prefix=''):
     total = 0
     for cap, kinds, sdc in geos:
         n = (250 if thorough else 90) if len(kinds) < 20 else 6
@@ -178,7 +216,7 @@ def run(tier, seed):
         good = [r for r in runs if 'trace' in r]
         for r in good:
             ck.distinct(r['trace']['ev'])
-            if r['failure']:
+            if r['failure'] and invs is None:
                 sc = jobs[r['jid']][0]
                 ck.violation('C20_ShutdownReturns', {
                     'component': 'crt', 'detail': r['failure'],
@@ -186,7 +224,7 @@ def run(tier, seed):
                     replay={'kind': 'c20', 'scenario': sc, 'chooser': jobs[r['jid']][1]})
         groups = [good[i:i + 200] for i in range(0, len(good), 200)]
         with ThreadPoolExecutor(max_workers=6) as ex:
-            outs = list(ex.map(lambda g: validate([r['trace'] for r in g], cap, kinds, sdc), groups))
+            outs = list(ex.map(lambda g: validate([r['trace'] for r in g], cap, kinds, sdc, invs), groups))
         for g, (reached, r) in zip(groups, outs):
             ck.add_tlc(f'CrtGlue_Trace cap={cap} n={len(kinds)} x{len(g)}', r,
                        exhaustive=False)
@@ -196,7 +234,7 @@ def run(tier, seed):
                 tidx = int(m[-1]) - 1 if m else 0
                 rr = g[tidx] if tidx < len(g) else g[0]
                 sc = jobs[rr['jid']][0]
-                ck.violation(r.violated[0], {
+                ck.violation(prefix + r.violated[0], {
                     'component': 'crt', 'scenario': sc, 'results': rr['results'],
                     'cex_tail': getattr(r, 'cex_full', r.cex)[-1500:]},
                     replay={'kind': 'c20', 'scenario': sc, 'chooser': jobs[rr['jid']][1]})
@@ -207,10 +245,19 @@ def run(tier, seed):
                     ck.machinery_errors.append('trace without verdict')
                     break
                 if rc[0] <= rc[1] and not rr['failure']:
+                    fs_kinds = ('before', 'complete', 'snap', 'finish')
+                    if invs is not None and prefix.startswith('C06') and \
+                            rc[0] <= len(rr['trace']['ev']) and \
+                            rr['trace']['ev'][rc[0] - 1].get('k') in fs_kinds:
+                        pass
+                    elif invs is not None:
+                        o = ck.coverage.setdefault('other_property_clauses_failed', {})
+                        o['C20_TraceConformance'] = o.get('C20_TraceConformance', 0) + 1
+                        continue
                     evs = rr['trace']['ev']
                     at = evs[rc[0] - 1] if 0 < rc[0] <= len(evs) else None
                     sc = jobs[rr['jid']][0]
-                    ck.violation('C20_TraceConformance', {
+                    ck.violation((prefix or 'C20_') + 'TraceConformance', {
                         'component': 'crt', 'scenario': sc,
                         'detail': f'event {rc[0]} of {rc[1]} is not a step of '
                                   f'CrtGlue.tla: {at}',
@@ -222,19 +269,9 @@ def run(tier, seed):
             ck.sample({'kind': 'crt glue trace', 'cap': cap, 'kinds': list(kinds)[:6],
                        'events_head': [{k: v for k, v in e.items() if v not in ('', 0, True)}
                                        for e in good[0]['trace']['ev'][:12]]}, limit=3)
-    pipeline.close_pool()
     ck.coverage['traces_validated_against_impl'] += total
     ck.coverage['evaluations'] += total
-    ck.require_nonvacuous('crt traces', total, 100)
-    ck.assumptions += [
-        'the real awscrt is not installed: s3transfer.crt runs against a stub '
-        'awscrt that provides only the imported names; the stub client '
-        'completes finished_future before calling on_done (as awscrt does) '
-        'and, in 30% of the runs, in the opposite order',
-        'the permit capacity is 128 in the code; runs use it unchanged or a '
-        'smaller one substituted through the threading shim',
-    ]
-    return ck.finish()
+    return total
 
 
 def replay(path):
